@@ -214,6 +214,23 @@ def gen_history(rng, schema, n_ops):
             else:
                 val = hostile_cue(rng, kinds) if which == "hot_cue" else hostile_loop(rng, kinds)
                 ops.append({"op": "set_at", "t": rng.choice(lt), "field": which, "index": idx, "value": val})
+        elif r < 0.56 and lc:
+            # positional creation with an anchor from anywhere in the tree: a sibling, a crate under another
+            # parent, a root crate, the parent itself, the caller itself
+            anchor = rng.choice(lc)
+            name = rng.choice(FO.VALID_NAMES + FO.INVALID_NAMES[:2]) + str(rng.randrange(50))
+            h = "c%d" % st.nc
+            st.nc += 1
+            kinds.add("after:maybe-other-parent")
+            if rng.random() < 0.35:
+                ops.append({"op": "create_root_crate_after", "name": FO.hx(name), "after": anchor, "as": h})
+                ok_parent = None
+            else:
+                ok_parent = rng.choice(lc)
+                ops.append({"op": "create_sub_crate_after", "c": ok_parent, "name": FO.hx(name), "after": anchor, "as": h})
+            # the generator's model: the creation succeeds only if the anchor is a sibling under that parent
+            if not FO.name_invalid(FO.hx(name)) and (not st.v2 or st.crates[anchor]["parent"] == ok_parent):
+                st.crates[h] = {"name": name, "parent": ok_parent, "alive": True}
         elif r < 0.68:
             op, _ = FO.gen_crate_op(rng, st, hostile=True)
             if op["op"] == "set_parent" and op["parent"] is not None:
